@@ -74,7 +74,7 @@ impl<'a> Pretty<'a, Formatter<'a>> for Value {
             | Value::Ctor(value) => value.pretty(f),
             | Value::Triv(value) => value.pretty(f),
             | Value::VCons(value) => value.pretty(f),
-            | Value::Proj(Proj(head, position)) => {
+            | Value::Proj(Proj(head, (position, _arity))) => {
                 RcDoc::concat([head.pretty(f), RcDoc::text(format!("[{position}]"))])
             }
             | Value::Lit(lit) => lit.pretty(f),
